@@ -1,13 +1,22 @@
 """C03 / C04 / C09 — circuit breaker: generators, implementation-side monitors"""
 from gen.util import kvs, tparse
 
+HUGE_WAIT = 18446744073709551615     # Duration::from_millis(u64::MAX)
+
+
+def _w(d):
+    """the wait used to choose time advances (a huge wait is never elapsed: advance by ordinary amounts)"""
+    return d["wait"] if d["wait"] < 10 ** 9 else 100
+
+
 FRACS = ["0/1", "1/4", "1/2", "1/2", "3/4", "1/1", "1/10", "3/10", "3/5", "1/8", "5/8"]
 
 
 def gen_cfg(rng, mode):
     time_based = rng.random() < (0.4 if mode != "seq" else 0.45)
     size = rng.choice([1, 2, 3, 4, 4, 5, 8])
-    d = {"size": size, "fr": rng.choice(FRACS), "wait": rng.choice([10, 50, 100]),
+    # now and then "stay open until a manual reset": the largest representable wait
+    d = {"size": size, "fr": rng.choice(FRACS), "wait": rng.choice([10, 50, 100]) if rng.random() < 0.94 else HUGE_WAIT,
          "permitted": rng.choice([1, 1, 2, 2, 3, 4])}
     if time_based:
         d["wtype"] = "time"
@@ -54,7 +63,7 @@ def gen_seq(rng, tier):
             else:
                 ops += ["arrive %d inner=0:%s%s" % (c, o, tag), "poll %d" % c]
         elif r < 0.82:
-            w = d["wait"]
+            w = _w(d)
             ops.append("adv %d" % rng.choice([w - 1, w, w, w + 1, 1, w // 2, d.get("wdur", 7), d.get("wdur", 7) + 1]))
         elif r < 0.86:
             ops.append("manual force_open")
@@ -80,7 +89,7 @@ def gen_conc(rng, tier, halfopen_bias=False):
     live = []
     now = 0
     marks = []
-    w = d["wait"]
+    w = _w(d)
     n = rng.randint(15, 70)
     pfail = rng.choice([0.3, 0.6, 0.9, 1.0]) if not halfopen_bias else rng.choice([0.0, 0.2, 0.5])
     if halfopen_bias:
@@ -156,6 +165,8 @@ def gen_stale_trial(rng, tier):
     d.pop("sr", None)
     d["fr"] = rng.choice(["1/2", "1/1"])
     p = d["permitted"] = rng.choice([1, 2, 2, 3])
+    if d["wait"] > 10 ** 9:
+        d["wait"] = 50
     w = d["wait"]
     ops = ["manual force_open", "adv %d" % w]
     c = 1
